@@ -3,6 +3,7 @@ package lexgen
 import (
 	"regexp"
 	"strings"
+	"unicode"
 	"unicode/utf8"
 )
 
@@ -56,7 +57,11 @@ func LineCol(in string, off int) (int, int) {
 	return line, 1 + utf8.RuneCountInString(in[last+1:off])
 }
 
-func isLower(name string) bool { return len(name) > 0 && name[0] >= 'a' && name[0] <= 'z' }
+// isLower: "rules whose names start with a lower-case letter" (any script).
+func isLower(name string) bool {
+	r, _ := utf8.DecodeRuneInString(name)
+	return name != "" && unicode.IsLower(r)
+}
 
 // visit walks the rules of state in declared order with included states spliced in place.
 func (rs *RuleSet) visit(state string, viaInclude bool, f func(r RuleSpec, viaInclude bool) bool) bool {
